@@ -997,7 +997,7 @@ def _never_none(e):
     return False
 
 
-def constant_none_filters(tree, extra_props=None):
+def constant_none_filters(tree, extra_props=None, extra_stored=None):
     """[(function, test, property name)]: the whole condition of an `if` / a comprehension filter is `<x>.<p> is [not] None`
     where every property called p in the program returns a freshly built collection on every path (never None): the
     condition is constant, so the filter selects everything (or nothing) — the emptiness test that was meant is gone"""
@@ -1026,9 +1026,17 @@ def constant_none_filters(tree, extra_props=None):
                 out_.add(k)
         return out_
     # greatest fixed point: properties that hand one another on (`Service.systems` is its server's `systems`) stand together
-    never = set(props)
+    # — among the names that are *only* properties: a name that some class also keeps as a plain attribute (`self.p = None`)
+    # can be None whatever the properties of that name return
+    stored = set(extra_stored or ()) | {t.attr for n in ast.walk(tree) if isinstance(n, (ast.Assign, ast.AnnAssign, ast.AugAssign))
+                                        for t in (n.targets if isinstance(n, ast.Assign) else [n.target])
+                                        for t in ([t] + (list(t.elts) if isinstance(t, ast.Tuple) else []))
+                                        if isinstance(t, ast.Attribute)} | {
+        t.id for c in ast.walk(tree) if isinstance(c, ast.ClassDef) for n in c.body if isinstance(n, ast.Assign)
+        for t in n.targets if isinstance(t, ast.Name)}
+    never = set(props) - stored
     for _ in range(8):
-        nxt = decided(never)
+        nxt = decided(never) - stored
         if nxt == never:
             break
         never = nxt
@@ -1055,16 +1063,21 @@ def r_nonefilter(E):
                                      "constant, every element passes (or none), and what was meant — is the list empty? — is "
                                      "not tested (the first object of the chain is taken for the one linked to a system)")
     # the properties of the whole package first (a name counts when *every* definition is never-None)
-    allprops = {}
+    allprops, allstored = {}, set()
     for mod, (rel, tree, src) in sorted(pm.modules.items()):
         _o, pr = constant_none_filters(tree)
         for k, v in pr.items():
             allprops.setdefault(k, []).extend(v)
+        allstored |= {t.attr for n in ast.walk(tree) if isinstance(n, (ast.Assign, ast.AnnAssign, ast.AugAssign))
+                      for t in (n.targets if isinstance(n, ast.Assign) else [n.target])
+                      for t in ([t] + (list(t.elts) if isinstance(t, ast.Tuple) else [])) if isinstance(t, ast.Attribute)}
+        allstored |= {t.id for c in ast.walk(tree) if isinstance(c, ast.ClassDef) for n in c.body if isinstance(n, ast.Assign)
+                      for t in n.targets if isinstance(t, ast.Name)}
     for mod, (rel, tree, src) in sorted(pm.modules.items()):
         res.instances += len([n for n in ast.walk(tree) if isinstance(n, ast.Compare) and len(n.ops) == 1
                               and isinstance(n.ops[0], (ast.Is, ast.IsNot))])
         # (judged with the package-wide table: a property defined never-None here and Optional elsewhere does not count)
-        found, _ = constant_none_filters(tree, {k: v for k, v in allprops.items()})
+        found, _ = constant_none_filters(tree, {k: v for k, v in allprops.items()}, allstored)
         for fn, t, p_ in found:
             res.findings.append(Finding(
                 "R-NONEFILTER", f"{rel}:{fn.name} :: {norm(t)}",
